@@ -205,7 +205,30 @@ def spelled_cases(tier):
                     yield {"fam": "spelled", "setup": setup, "gid": gid, "url": url, "clip": clip}
 
 
+def evaluate_big(case):
+    from mc.gen import big
+
+    outs = collections.Counter()
+    nts = set()
+    viols = []
+    n = 0
+    for label, doc in big.all_docs(case["tier"]):
+        for drop in (False, True):
+            n += 1
+            o, why, out, stats = judge(doc, drop)
+            outs["big/" + o] += 1
+            if o != "returned":
+                viols.append({"sig": {"kind": "raised", "type": o, "fam": "big", "doc": label.split("-")[0]}, "case": {"fam": "doc", "doc": doc, "drop": drop}, "detail": {"why": f"conversion of a reference-complete document ({label}) failed: {out}"}})
+                continue
+            nts.add(core.h64(doc + str(drop)))
+            if why:
+                viols.append({"sig": {"kind": why[0][0], "fam": "big", "doc": label.split("-")[0]}, "case": {"fam": "doc", "doc": doc, "drop": drop}, "detail": {"why": "; ".join(w[1] for w in why)[:600], "output": out[:2500], "drop_unsupported": drop}})
+    return {"n": n, "outs": outs, "nts": nts, "viol": viols[:8], "sample": None}
+
+
 def evaluate(case):
+    if case.get("fam") == "big":
+        return evaluate_big(case)
     if case.get("fam") == "spelled":
         return evaluate_spelled(case)
     setup, collision, nested, clip, ids = case["setup"], case["collision"], case["nested"], case["clip"], case["ids"]
@@ -284,7 +307,7 @@ def run(run):
         "gradient in defs referenced by a path, no href. Non-trivial = output has >= 1 gradient or the source had ids that must be dropped/renamed."
     )
     run.floor_nt = 500
-    run.run_cases(MOD, itertools.chain(spelled_cases(run.tier), cases(run.tier, run.seed), drop_cases(run.tier)), chunk=1)
+    run.run_cases(MOD, itertools.chain([{"fam": "big", "tier": run.tier}], spelled_cases(run.tier), cases(run.tier, run.seed), drop_cases(run.tier)), chunk=1)
 
 
 def replay(case):
